@@ -3757,8 +3757,22 @@ pub fn lift_fn(ctx: &mut Ctx, blk: &Block) -> Result<(String, Value), String> {
         // listed variables (one variable: that variable)
         let mut stmts: Vec<syn::Stmt> = f.block.stmts[k..].to_vec();
         if let Some(until) = blk.opt("until") {
+            // the first top-level `let <until>` after the start, or (L28d) the first top-level statement that is not a `let`
+            // and binds `<until>` somewhere inside (an `if` / loop whose body opens with that binding)
+            fn binds_inside(st: &syn::Stmt, name: &str) -> bool {
+                struct PB<'z>(&'z str, bool);
+                impl<'ast, 'z> syn::visit::Visit<'ast> for PB<'z> {
+                    fn visit_pat_ident(&mut self, i: &'ast syn::PatIdent) {
+                        if i.ident == self.0 { self.1 = true; }
+                    }
+                }
+                if matches!(st, syn::Stmt::Local(_)) { return false; }
+                let mut pb = PB(name, false);
+                syn::visit::Visit::visit_stmt(&mut pb, st);
+                pb.1
+            }
             let ku = f.block.stmts.iter().skip(k).position(|st| matches!(st, syn::Stmt::Local(l) if matches!(&l.pat, syn::Pat::Ident(pi) if pi.ident == until)
-                || matches!(&l.pat, syn::Pat::Type(pt) if matches!(&*pt.pat, syn::Pat::Ident(pi) if pi.ident == until))));
+                || matches!(&l.pat, syn::Pat::Type(pt) if matches!(&*pt.pat, syn::Pat::Ident(pi) if pi.ident == until))) || binds_inside(st, until));
             let Some(ku) = ku else { return Err(format!("lost anchor: no binding of `{until}` after `{from}` in {path}")) };
             stmts.truncate(ku);
             let outs: Vec<&str> = blk.opt("outs").ok_or("lift: until= needs outs=<a,b,..>")?.split(',').map(|x| x.trim()).filter(|x| !x.is_empty()).collect();
